@@ -146,7 +146,10 @@ fn positions_leg(json_text: &str, meta: &std::rc::Rc<Meta>, tape: &[u16], label:
         let mut h = Host::new(json_text, meta.clone(), &cfg).map_err(|e| e.to_string())?;
         let mut checked = 0usize;
         for step in 0..24 {
-            if h.story.can_continue() {
+            // (step 0 looks at the story before its first continue: a position in the root
+            // container, whose own path is empty)
+            if step == 0 {
+            } else if h.story.can_continue() {
                 h.apply(&HostOp::Continue);
             } else if !h.story.get_current_choices().is_empty() {
                 h.apply(&HostOp::ChooseMod(t.pick(8)));
